@@ -481,33 +481,14 @@ impl<'a> Model<'a> {
                 }
             }
         }
-        // Requests with identical content are interchangeable on the wire: a packet first credited
-        // to an earlier, cancelled request (which may never have been enqueued) belongs to this
-        // accepted one if nothing else on the wire can.
+        // Requests with identical content are interchangeable on the wire, and packets were credited
+        // to the oldest eligible request as they appeared - also to cancelled requests that may
+        // never have been enqueued. If this accepted request ended up without a packet, redo the
+        // attribution inside its content class: packets go out in acceptance order, every accepted
+        // member must get one, cancelled members only if there are packets to spare.
         if let Some(r) = rec.request {
             if matches!(res, OpRes::Handle(_)) && !self.req_matched[r] {
-                let reqs = &self.v.trace.requests;
-                // (an operation first finishes what earlier ones left half-written: its own packet
-                // is the last one that was first transmitted during it)
-                let donor = (0..reqs.len())
-                    .filter(|&q| {
-                        q != r
-                            && self.req_matched[q]
-                            && reqs[q].op < reqs[r].op
-                            && reqs[q].op >= self.epoch_first_op
-                            && reqs[q].packet == reqs[r].packet
-                            && matches!(self.v.trace.ops[reqs[q].op].res, OpRes::Cancelled { .. } | OpRes::Err(ErrKind::Transport))
-                    })
-                    .filter_map(|q| self.flights.iter().find(|f| f.req == Some(q) && f.epoch == self.epoch && f.first_op == Some(op)).map(|f| (f.seq, q)))
-                    .max()
-                    .map(|(_, q)| q);
-                if let Some(q) = donor {
-                    if let Some(f) = self.flights.iter_mut().find(|f| f.req == Some(q)) {
-                        f.req = Some(r);
-                    }
-                    self.req_matched[q] = false;
-                    self.req_matched[r] = true;
-                }
+                self.rebalance_class(r);
             }
         }
         // an accepted request must have been put on the wire by the time the operation returns
@@ -706,6 +687,59 @@ impl<'a> Model<'a> {
                     && multiset_eq(pa.as_deref().unwrap_or(&[]), pb.as_deref().unwrap_or(&[]))
             }
             _ => false,
+        }
+    }
+
+    fn rebalance_class(&mut self, r: usize) {
+        let reqs = &self.v.trace.requests;
+        let members: Vec<usize> = (0..reqs.len())
+            .filter(|&q| {
+                reqs[q].op >= self.epoch_first_op
+                    && reqs[q].op < self.ops_started
+                    && reqs[q].packet == reqs[r].packet
+                    && !matches!(&self.v.trace.ops[reqs[q].op].res, OpRes::Err(e) if Self::is_refusal(e))
+            })
+            .collect();
+        let accepted = |q: usize| matches!(self.v.trace.ops[reqs[q].op].res, OpRes::Handle(_)) || q == r;
+        let mut flights: Vec<usize> = (0..self.flights.len())
+            .filter(|&i| self.flights[i].epoch == self.epoch && self.flights[i].req.is_some_and(|q| members.contains(&q)))
+            .collect();
+        flights.sort_by_key(|&i| self.flights[i].seq);
+        let mut need = members.iter().filter(|&&q| accepted(q)).count();
+        if flights.len() < need {
+            return; // really missing: reported by the caller
+        }
+        let mut left = flights.len();
+        let mut next = 0usize;
+        let mut assign: Vec<(usize, usize)> = Vec::new();
+        for &q in &members {
+            if left == 0 {
+                break;
+            }
+            let acc = accepted(q);
+            if acc || left > need {
+                assign.push((flights[next], q));
+                next += 1;
+                left -= 1;
+            }
+            if acc {
+                need -= 1;
+            }
+        }
+        for &q in &members {
+            self.req_matched[q] = false;
+        }
+        for (fi, q) in assign {
+            self.flights[fi].req = Some(q);
+            self.req_matched[q] = true;
+        }
+        // handles of the class follow their requests
+        for h in 0..self.handle_req.len() {
+            if let Some((q, _)) = self.handle_req[h] {
+                if members.contains(&q) {
+                    self.handle_flight[h] = self.flights.iter().position(|f| f.req == Some(q));
+                }
+            }
         }
     }
 
